@@ -221,8 +221,10 @@ func (vc *FuncVC) applyContract(st *State, reach Term, ins *ssa.Call, callee *ss
 	common := ins.Common()
 	rt := ins.Type()
 	name := fc.Name
-	vc.callOrd[name]++
-	site := fmt.Sprintf("%s#%d", name, vc.callOrd[name])
+	site := fmt.Sprintf("%s#%d", name, vc.siteOrd[ins])
+	if vc.discovery == 0 {
+		vc.sites = append(vc.sites, site+" @"+vc.pos(ins.Pos()))
+	}
 	if fc.Trusted {
 		vc.trustedUsed[name] = true
 	}
@@ -257,6 +259,18 @@ func (vc *FuncVC) applyContract(st *State, reach Term, ins *ssa.Call, callee *ss
 				nonNilGoals = append(nonNilGoals, Ne(sv.T, IntLit(0)))
 			}
 		}
+	}
+	// ghost assertions placed before this call site
+	for i, a := range vc.fc.Asserts[site] {
+		env := vc.env(st, vc.localVars())
+		t := env.boolean(a.E)
+		label := a.Name
+		if label == "" {
+			label = fmt.Sprintf("%d", i+1)
+		}
+		vc.oblige("R", fmt.Sprintf("assert/%s/%s", site, label), reach, t, clauseTags(a, vc.propTags()), ins.Pos(), a.Src)
+		vc.assume(Implies(reach, t))
+		vc.assertsSeen[site] = true
 	}
 	pre := st.clone()
 	envPre := &Env{g: vc.Gen, cur: pre, old: pre, vars: vars}
@@ -355,8 +369,11 @@ func (vc *FuncVC) execReturn(st *State, reach Term, ins *ssa.Return) {
 		if label == "" {
 			label = fmt.Sprintf("%d", j+1)
 		}
-		t := env.boolean(en.E)
-		vc.oblige("R", fmt.Sprintf("post/%s/ret%d", label, k), reach, t, clauseTags(en, tags), ins.Pos(), en.Src)
+		en := en
+		t, extra := vc.goalLocal(func() Term { return env.boolean(en.E) })
+		if o := vc.oblige("R", fmt.Sprintf("post/%s/ret%d", label, k), reach, t, clauseTags(en, tags), ins.Pos(), en.Src); o != nil {
+			o.Extra = extra
+		}
 	}
 	if vc.fc.Fresh && len(ins.Results) > 0 {
 		r := vars["ret"]
